@@ -43,3 +43,49 @@ Theorem C09_stream : forall a b g s, good s -> pyr_ok g ->
   good (filter_zoom a b s) /\ good (filter_bbox g s).
 Proof. intros; split; [now apply good_filter_zoom | now apply good_filter_bbox]. Qed.
 Print Assumptions C09_stream.
+
+(* ---- the tile box a geographic box maps to: discrete stage of from_geo, per axis ---- *)
+Require Import ZArith.
+From VT Require Import Model.Geo Proofs.GeoProofs.
+Lemma C09_gen_geo_guard : geo_guard_variant = 1.  Proof. reflexivity. Qed.
+Theorem C09_geo_axis : forall S G n uw ue, (0 < S)%Z -> (0 <= G)%Z -> (1 <= n)%Z ->
+  let '(a, b) := axis_box geo_guard_variant S G n uw ue in
+  (0 <= a /\ a <= b /\ b <= n - 1)%Z /\
+  forall i, (0 <= i <= n - 1)%Z -> (uw + G < (i + 1) * S)%Z -> (i * S <= ue - G)%Z -> (a <= i <= b)%Z.
+Proof.
+  intros S G n uw ue HS HG Hn.
+  pose proof (axis_box_nonempty geo_guard_variant S G n uw ue Hn) as H1.
+  pose proof (fun i => axis_covers geo_guard_variant S G n uw ue i HS HG Hn) as H2.
+  destruct (axis_box geo_guard_variant S G n uw ue) as [a b]. split; [exact H1|]. intros i Hi Hw He. exact (H2 i Hi Hw He).
+Qed.
+Print Assumptions C09_geo_axis.
+
+(* ---- "an invalid filter argument is reported as an error when the pipeline is built" ---- *)
+From VT Require Import Model.Http Model.VPLArgs Proofs.VPLArgsProofs.
+Theorem C09_bbox_argument : forall p,
+  bbox_builds p = true <->
+  exists a b c d w s e n, p = Some [a; b; c; d] /\
+    literal a = Some w /\ literal b = Some s /\ literal c = Some e /\ literal d = Some n /\
+    (-180 <= w /\ w <= e /\ e <= 180 /\ -90 <= s /\ s <= n /\ n <= 90)%Z.
+Proof. exact bbox_builds_iff. Qed.
+Print Assumptions C09_bbox_argument.
+
+Theorem C09_bbox_wrong_arity : forall p, (forall l, p = Some l -> length l <> 4%nat) -> bbox_builds p = false.
+Proof. exact bbox_wrong_arity_rejected. Qed.
+Print Assumptions C09_bbox_wrong_arity.
+
+Theorem C09_zoom_arguments : forall pmin pmax a b,
+  zoom_builds pmin pmax = AOk (a, b) <->
+  (match a with None => pmin = None | Some v => exists s, pmin = Some [s] /\ parse_uint 255 s = Some v end) /\
+  (match b with None => pmax = None | Some v => exists s, pmax = Some [s] /\ parse_uint 255 s = Some v end).
+Proof. exact zoom_builds_iff. Qed.
+Print Assumptions C09_zoom_arguments.
+
+Example C09_bbox_argument_examples :
+  bbox_builds (Some [[48]; [48]; [50;48]; [50;48]]) = true /\
+  bbox_builds (Some [[48]; [48]; [50;48]; [50;48]; [52;48]]) = false /\
+  bbox_builds (Some [[48]; [48]; [50;48]]) = false /\ bbox_builds None = false /\
+  bbox_builds (Some [[48]; [48]; [50;48]; [110]]) = false /\
+  zoom_builds (Some [[50;53;54]]) None = AErr /\ zoom_builds (Some [[51]]) (Some [[52];[53]]) = AErr /\
+  zoom_builds (Some [[51]]) None = AOk (Some 3%N, None).
+Proof. repeat split. Qed.
